@@ -1129,6 +1129,7 @@ func (ro *RedisOutput) sendCmdsBatch(replayWait usync.WaitCloser, conn client.Re
 				length += len(item.Args[i].([]byte))
 			}
 
+			prevOffset := lastOffset
 			lastOffset = item.Offset
 			if item.Cmd == "ping" { // skip ping command, keepaliveTicker handle it[multi/exec, ping issue for cluster]
 				continue
@@ -1138,7 +1139,14 @@ func (ro *RedisOutput) sendCmdsBatch(replayWait usync.WaitCloser, conn client.Re
 			if transactionMode {
 				if needFlush {
 					// flush previous data
-					err := sendFunc(transactionBatch, shouldUpdateCP, lastOffset)
+					// a select or multi is not part of the flushed batch : the checkpoint of that
+					// batch must not cover it, else a restart resumes behind a db switch that the
+					// target never executed, or in the middle of a source transaction
+					flushOffset := lastOffset
+					if txnStatus == txnStatusBarrier || txnStatus == txnStatusBegin {
+						flushOffset = prevOffset
+					}
+					err := sendFunc(transactionBatch, shouldUpdateCP, flushOffset)
 					if err != nil {
 						return err
 					}
